@@ -53,7 +53,7 @@ struct C04 : Scenario {
     Json generate(Rng& rng, const std::string& tier, std::uint64_t) override {
         Json p = Json::object();
         p["scenario"] = "S-RUN";
-        GenOpts o; o.family_snippets = true; o.tuning_vfp = true; o.late_edits = true; o.max_steps = tier == "thorough" ? 9 : 7; o.max_actions = 3; o.max_udq = 1; o.restart_safe_conditions = false; o.reparent_groups = true; o.action_inline_safe = true; o.stop_safe = false; o.geo_kws = true;
+        GenOpts o; o.family_snippets = true; o.tuning_vfp = true; o.late_edits = true; o.max_steps = tier == "thorough" ? 9 : 7; o.max_actions = 3; o.max_udq = 1; o.restart_safe_conditions = false; o.reparent_groups = true; o.action_inline_safe = true; o.stop_safe = false; o.geo_kws = true; o.per_step_kws = true;
         p["model_seed"] = static_cast<long long>(rng.next() >> 8); p["gen"] = o.to_json(); p["physics_seed"] = static_cast<long long>(rng.next() >> 16);
         Json ms = Json::array();
         for (int s = 0; s < o.max_steps; ++s) { Json f = Json::array(); int n = static_cast<int>(rng.range(1, 3)); for (int k = 1; k < n; ++k) f.push(static_cast<double>(k) / n); f.push(1.0); ms.push(f); }
@@ -92,7 +92,7 @@ struct C04 : Scenario {
         Hash64 oh, sh;
         Monitor mon(r, "C04");
         std::unique_ptr<World> w;
-        long compared = 0;
+        long compared = 0, n_shut_ins_total = 0, n_wpi_acc_total = 0;
         try {
             w = World::create(deck, cfg);
             w->write_initial();
@@ -103,12 +103,40 @@ struct C04 : Scenario {
             // ---- the reference: inline every recorded application, in firing order
             DeckOpts dopt;
             std::set<int> touched;
+            // The exception clause ("keywords whose meaning is defined per report step ... see step n as already closed") is part of the
+            // reference, not a mask: (a) a well that stood SHUT with all connections shut when the application began gets an explicit
+            // well-level WELOPEN SHUT in front of the inlined keywords (the automatic shut-in of the closed step has happened);
+            // (b) a well-wide WPIMULT record of the application multiplies onto the factor the closed step already applied, i.e. its
+            // inlined factor is closed[w] * f (within one pass only the last well-wide record of a well counts - that rule itself is kept).
+            std::map<int, std::map<std::string, double>> closed;   // step -> well -> factor of the pass(es) already closed
+            auto global_wpimult = [](const Kw& k, const std::vector<std::string>& rec) { return k.name == "WPIMULT" && k.raw.empty() && rec.size() == 2; };
+            auto unq = [](std::string t) { if (t.size() >= 2 && t.front() == '\'' && t.back() == '\'') t = t.substr(1, t.size() - 2); return t; };
+            long n_shut_ins = 0, n_wpi_acc = 0;
+            const std::string plain = getenv("VERIF_C04_PLAIN_INLINING") ? getenv("VERIF_C04_PLAIN_INLINING") : ""; const bool plain_shut = plain == "1" || plain == "shut", plain_wpi = plain == "1" || plain == "wpimult";   // development aid: reference without the exception clause (shows that the clause is reached)
             for (const auto& f : w->firings) {
                 auto it = ix.find(f.action); if (it == ix.end()) continue;
-                for (auto& k : expand(*it->second, f.wells)) dopt.append_to_block[f.step].push_back(k);
+                if (!closed.count(f.step)) {
+                    auto& c = closed[f.step];
+                    const std::vector<Kw>* blk = f.step == 0 ? &m.block0 : f.step < m.nsteps() ? &m.steps[static_cast<size_t>(f.step)].kws : nullptr;
+                    if (blk) for (const auto& k : *blk) for (const auto& rec : k.recs) if (global_wpimult(k, rec)) c[unq(rec[0])] = std::stod(rec[1]);
+                }
+                if (!f.shut_closed.empty() && !plain_shut) { Kw sk; sk.name = "WELOPEN"; for (auto& wn : f.shut_closed) sk.recs.push_back({"'" + wn + "'", "'SHUT'"}); dopt.append_to_block[f.step].push_back(sk); n_shut_ins += static_cast<long>(f.shut_closed.size()); }
+                auto& c = closed[f.step];
+                std::map<std::string, double> last;   // last well-wide factor per well inside this application
+                for (auto& k : expand(*it->second, f.wells)) {
+                    Kw k2 = k;
+                    for (auto& rec : k2.recs) if (global_wpimult(k2, rec)) {
+                        const std::string wn = unq(rec[0]); const double fac = std::stod(rec[1]);
+                        last[wn] = fac;
+                        if (c.count(wn) && !plain_wpi) { std::ostringstream os; os.precision(17); os << c[wn] * fac; rec[1] = os.str(); ++n_wpi_acc; }
+                    }
+                    dopt.append_to_block[f.step].push_back(k2);
+                }
+                for (auto& kv : last) c[kv.first] = (c.count(kv.first) ? c[kv.first] : 1.0) * kv.second;
                 touched.insert(f.step);
                 sh.str(f.action); sh.u64(static_cast<std::uint64_t>(f.step)); sh.u64(f.wells.size());
             }
+            n_shut_ins_total = n_shut_ins; n_wpi_acc_total = n_wpi_acc;
             const std::string deck_inl = deck_text(m, dopt);
             if (getenv("VERIF_DUMP_DECK")) fs::spit("/tmp/deckInl.DATA", deck_inl);
             try {
@@ -136,7 +164,7 @@ struct C04 : Scenario {
             } catch (const std::exception& e) { r.fail("C04.inlined_deck_threw." + msg_key(e.what()), std::string("constructing the schedule of the inlined deck threw: ") + e.what()); }
         }
         r.counters["comparisons"] = compared; r.counters["probe.applications"] = w ? static_cast<long>(w->firings.size()) : 0;
-        r.counters["earlier_state_checks"] = mon.checks;
+        r.counters["earlier_state_checks"] = mon.checks; r.counters["probe.closed_step_shut_in_made_explicit"] = n_shut_ins_total; r.counters["probe.wpimult_accumulated_on_closed_step"] = n_wpi_acc_total;
         { long q = 0, multi = 0; std::map<int, int> per; if (w) for (auto& f : w->firings) { auto it = ix.find(f.action); if (it != ix.end()) for (auto& k : it->second->body) for (auto& rec : k.recs) for (auto& t : rec) if (t == "'?'") ++q; if (++per[f.step] == 2) ++multi; }
           r.counters["probe.question_mark_records_applied"] = q; r.counters["probe.two_applications_in_one_step"] = multi; }
         r.sim_seconds = w ? w->sim_seconds : 0;
